@@ -61,16 +61,29 @@ Section SchemaCtrl.
                  (involved_accounts (t_postings t) amd) (s_accounts s, s_ahist s)).
 
   (* the operation body with a schema at hand (fn of runLog) *)
+  Definition create_tx_d (now : Z) (s : state) (dflt : addr -> meta) (ps : list posting) (ts : option Z) (ref : str) (md : meta)
+             (amd : list (addr * meta)) (force : bool) : outcome :=
+    match ps with
+    | [] => Failed s ENoPostings
+    | _ =>
+      if negb (feasible force (s_vols s) ps) then Failed s EInsufficientFunds
+      else match commit_transaction f now s ps md ts ref with
+           | (s1, None) => Failed s1 EReferenceConflict
+           | (s1, Some t) => Done (upsert_tx_accounts_d now s1 dflt t amd) (PNewTx t amd)
+           end
+    end.
+
   Definition run_input_d (now : Z) (s : state) (dflt : addr -> meta) (i : input) : outcome :=
     match i with
-    | ICreate ps ts ref md amd force =>
+    | ICreate ps ts ref md amd force => create_tx_d now s dflt ps ts ref md amd force
+    | IScript ps ts ref md amd force smd samd =>      (* as Core.run_input: the script's metadata merged with the request's *)
       match ps with
       | [] => Failed s ENoPostings
       | _ =>
         if negb (feasible force (s_vols s) ps) then Failed s EInsufficientFunds
-        else match commit_transaction f now s ps md ts ref with
-             | (s1, None) => Failed s1 EReferenceConflict
-             | (s1, Some t) => Done (upsert_tx_accounts_d now s1 dflt t amd) (PNewTx t amd)
+        else match script_tx_meta smd md with
+             | None => Failed s EMetadataOverride
+             | Some md' => create_tx_d now s dflt ps ts ref md' (script_acc_meta samd amd) force
              end
       end
     | ISetMeta (TAcc a) md =>
@@ -95,6 +108,23 @@ Section SchemaCtrl.
         | [] => if String.eqb template "" then Some i else None
         end
       | None => if String.eqb template "" then Some i else None  (* "can only use templates on a schema with transaction definitions" *)
+      end
+    (* a script create: a named template REPLACES the submitted script (parameters.Input.Plain = template.Script), so the
+       set_tx_meta / set_account_meta calls of the submitted script go with it (the templates of this model are postings
+       lists: they set no metadata); without a template the submitted script runs as it is *)
+    | IScript ps ts ref md amd force smd samd =>
+      match sc with
+      | Some r =>
+        match sc_templates r with
+        | _ :: _ =>
+          if String.eqb template "" && (match m with Strict => true | Audit => false end) then None
+          else match aget String.eqb (sc_templates r) template with
+               | Some tps => Some (ICreate tps ts ref md amd false)
+               | None => if String.eqb template "" then Some i else None
+               end
+        | [] => if String.eqb template "" then Some i else None
+        end
+      | None => if String.eqb template "" then Some i else None
       end
     | _ => Some i
     end.
